@@ -161,6 +161,18 @@ def r2(ctx):
     targ = u(calls[0].args[1]) if ok and len(calls[0].args) > 1 else None
     okt = targ in ("list(sample_superreads)", "sample_superreads", "sample_superreads.keys()", "list(sample_superreads.keys())")
     ctx.ob(w.qual, "removal-covers-all-target-samples", okt, w.loc(calls[0]) if calls else w.loc(loop), "the samples whose old phase is removed are exactly the target samples (keys of sample_superreads)" if okt else "old phase is removed for %s, not for the target samples" % targ)
+    # the writer removes old phase for the KEYS of sample_superreads; every target sample of every family must become a key
+    run = ctx.func("whatshap.cli.phase.run_whatshap")
+    pcfg = ctx.cfg(run)
+    fam = [n for n in walk_function(run.node) if isinstance(n, ast.For) and "families" in u(n.iter)]
+    ctx.require(len(fam) == 1, "family loop of run_whatshap not found")
+    keyed = {pcfg.node_of(s_.stmt) for s_ in util.store_sites(fam[0]) if s_.kind == "subscript" and u(s_.target.value) == "superreads"}
+    zipl = set()
+    for n_ in walk_function(fam[0]):
+        if isinstance(n_, ast.For) and u(n_.iter) == "zip(family, superreads_list)":
+            zipl.add(pcfg.node_of(n_))
+    probs = util.check_loop_conservation(pcfg, fam[0], lambda n: n in zipl) if zipl and keyed else [("skip", [])]
+    ctx.ob(run.qual, "every-family-member-becomes-a-writer-target", not probs, run.loc(fam[0]), "every processed family stores superreads[sample] for all its members, so the writer removes their old phase on this chromosome" if not probs else "a family can be skipped before superreads[sample] is stored: its members keep all pre-existing phase information on this chromosome", pcfg.describe_path(probs[0][1]) if probs and probs[0][1] else None)
     rm = ctx.func(W + "._remove_existing_phasing")
     rcfg = ctx.cfg(rm)
     params = util.params_of(rm.node)
@@ -318,4 +330,4 @@ RULES = [
     ("C09.R3", "GT normalisation (sorted) precedes the setter for both tags", r3),
     ("C09.R4", "phased blocks -> complementary pseudo reads", r4),
 ]
-FLOORS = {"C09.R1": 15, "C09.R2": 7, "C09.R3": 2, "C09.R4": 12}
+FLOORS = {"C09.R1": 15, "C09.R2": 8, "C09.R3": 2, "C09.R4": 12}
